@@ -105,7 +105,7 @@ PROPS = {
                        "R69: start/end element pairing on every successful path. R62: error table per Val variant and for missing "
                        "root, bad version, name+text. R90: namespace and version tables. R63: NULL parts are skipped before any "
                        "getter / attr(). Not decided: escaping, namespace prefixing and indentation behaviour of xml-rs; equality "
-                       "of the re-parsed tree; a root tuple without name and text writes nothing (noted in DESIGN.md). Added later: R62 name-and-text decided path-sensitively, R69v (strings verbatim), R63e (is_empty true for NULL only). R61 also: a bare string child reaches the writer as text; R90 also: the element name written does not depend on whether a namespace was given.",
+                       "of the re-parsed tree; a root tuple without name and text writes nothing (noted in DESIGN.md). Added later: R62 name-and-text decided path-sensitively, R69v (strings verbatim), R63e (is_empty true for NULL only). R61t (round 6): the text string goes from get_str_val to characters() with no str method applied to it (presence depends on NULL only). R61 also: a bare string child reaches the writer as text; R90 also: the element name written does not depend on whether a namespace was given.",
         "assumptions": ["xml-rs escapes markup-significant characters in characters() and attribute values"],
     },
     "C02": {
